@@ -73,6 +73,10 @@ fn access(addr: usize, width: u8, write: bool, value: u64) -> u64 {
         let r = with(|b| {
             b.spent += 1;
             if b.budget != 0 && b.spent > b.budget {
+                // the panic that follows unwinds through the driver, whose destructors access registers too
+                // (a transport resets the device when dropped): they get a fresh allowance — a panic inside a
+                // destructor during unwinding would abort the process
+                b.spent = 0;
                 return Err(());
             }
             Ok(b.regions.iter().position(|r| addr >= r.base && addr + width as usize <= r.base + r.len).map(|i| (i, addr - b.regions[i].base, b.regions[i].name.clone())))
